@@ -187,7 +187,7 @@ pub fn table() -> Vec<IpAddr> {
 }
 
 #[derive(Clone)]
-struct ListResolver(Vec<SocketAddr>);
+pub struct ListResolver(pub Vec<SocketAddr>);
 
 impl tower::Service<Box<str>> for ListResolver {
     type Response = hyperdriver::client::conn::dns::SocketAddrs;
